@@ -55,6 +55,8 @@ func DetachClearSign(w io.Writer, signer *openpgp.Entity, message io.Reader, con
 	done := make(chan error)
 	go func() {
 		tail, err := tailClearSign(readPipe)
+		// the scanner may have stopped early; never leave the writer blocked on the pipe
+		_ = readPipe.CloseWithError(err)
 		if err == nil {
 			_, err = w.Write(tail)
 		}
@@ -99,7 +101,10 @@ func MergeClearSign(w io.Writer, sig []byte, message io.Reader) error {
 	readPipe, writePipe := io.Pipe()
 	done := make(chan error)
 	go func() {
-		done <- headClearSign(readPipe, out)
+		err := headClearSign(readPipe, out)
+		// headClearSign may have stopped early; never leave the writer blocked on the pipe
+		_ = readPipe.CloseWithError(err)
+		done <- err
 	}()
 
 	err = ClearSign(writePipe, signer, message, config)
